@@ -6,6 +6,22 @@ var realAll = []string{"every package of /repo (scratch copy, mechanically instr
 
 func init() {
 	register(&propCfg{
+		id: "C02", worker: "c02", goCmd: "go",
+		instrument: []string{"-maps", "-clock", "-tick"},
+		tiers: map[string]tierCfg{
+			"quick":    {cases: 120_000, timeout: 20 * time.Minute},
+			"thorough": {cases: 20_000_000, timeout: 180 * time.Minute},
+		},
+		level: "exploration",
+		rule: "case = one tape: one of 19 decoders (sfnt.Read via ReaderAt and via a streaming reader, header.Read, cff.Read, cmap.Decode, glyf.Decode, gtab.Read for GSUB and GPOS, gdef.Read, coverage.Read/ReadSet, classdef.Read, name.Decode, head.Read, hmtx.Decode, maxp.Read, os2.Read, post.Read, kern.Read) is fed the matching artefact of a font the library itself wrote (Go fonts, their CFF conversions, 24 generated fonts with GSUB/GPOS/GDEF/kern) after 1..3 faults of the stored-data catalogue (truncate, bit flips, byte/16-bit/32-bit field set or nudged, zeroed/duplicated/swapped/random sector, torn overwrite with another file's table, garbage tail; 1/14 undamaged, 1/14 all-random bytes), through readers with tape-chosen short reads in half of the cases. Oracles: no panic, deterministic step budget (2e8 + 1e4*len), allocation <= 64 MiB + 1 KiB*len; on success the accessor battery of the statement (glyph counts, widths, boxes, cmap Get/GetBest/Lookup, SimpleGlyph.Decode, Components, re-encoding) must not panic. Non-trivial = every case; distinct = distinct (decoder, input bytes).",
+		real:  realAll,
+		stubs: []string{"stored bytes (fault catalogue)", "io.Reader / io.ReaderAt / parser.ReadSeekSizer (simio: short reads, zero-length reads, EOF forms)", "step counter", "allocation meter (runtime.MemStats.TotalAlloc delta, single-threaded worker)"},
+		assume: []string{
+			"the byte strings explored are fault neighbourhoods of valid artefacts plus short random strings: a sample of 'all byte strings', not the space",
+			"Layout, Subset and name generation on damaged fonts are not part of the accessor battery (the statement does not list them)",
+		},
+	})
+	register(&propCfg{
 		id: "C07", worker: "c07", goCmd: "go",
 		instrument: []string{"-maps", "-clock", "-tick"},
 		tiers: map[string]tierCfg{
